@@ -6,7 +6,8 @@
    constrains every other result exactly.  None / OutPanic = the Go code panics. *)
 From Coq Require Import List ZArith Bool.
 From V Require Import Model.RingSeq Model.SyncRingSeq Run.C10 Proofs.RingPure Proofs.RingSeq
-  Proofs.SyncRingSeq Proofs.SyncRingCap Proofs.SyncRingRun Proofs.C10Entry.
+  Proofs.SyncRingSeq Proofs.SyncRingCap Proofs.SyncRingRun Proofs.C10Entry
+  Lib.GoSem Gen.RingCode Run.C10Code Proofs.RingCode.
 Import ListNotations.
 Local Open Scope Z_scope.
 
@@ -87,3 +88,42 @@ Theorem c10_entry_sync_spec_matches_model : forall k c inj toks ops, k = 1 \/ k 
   out_match (entry 1 (k :: c :: inj :: toks)) (entry 0 (k :: c :: inj :: toks)) = true.
 Proof. exact entry_sync_spec_matches_model. Qed.
 Print Assumptions c10_entry_sync_spec_matches_model.
+
+(* ---------------------------------------------------------------- the code IS the model (third tie to the source) *)
+(* Gen/RingCode.v is produced on every run by the Go -> Gallina translator gen/trans.go from the function BODIES of
+   ringz/ring.go (type Ring, New and all ten methods) and of roundupPowOfTwo (ringz/sync.go).  Every generated function
+   g_... equals the hand-written model function on which the theorems above rest, for all arguments and all states
+   (to_model / of_model: the explicit bijection between the generated Record and the model's record; st_res,
+   swap_res: Go returns (value, ok), the model (ok, value); lift: None = panic; lift_fuel: None = out of fuel).
+   No precondition for Ring: the model already returns None where the code panics.  The loop: equal fuel for fuel to
+   the model's loop for EVERY fuel and argument; with fuel 64 equal to the model's roundup on 0 <= x < 2^39 (the model's
+   own fuel is 40; uint32 arguments are < 2^32), and fuel 64 never runs out below 2^63. *)
+Theorem c10_code_is_model :
+  (forall r c, g_Ring_Init r c = mmap of_model (lift (init c))) /\
+  (forall c, g_New c = mmap of_model (lift (init c))) /\
+  (forall r, g_Ring_IsEmpty r = Ret (is_empty (to_model r))) /\
+  (forall r, g_Ring_IsFull r = lift (is_full (to_model r))) /\
+  (forall r v, g_Ring_Push r v = mmap st_res (lift (push (to_model r) v))) /\
+  (forall r, g_Ring_Pop r = mmap st_swap_res (lift (pop (to_model r)))) /\
+  (forall r, g_Ring_Peek r = mmap swap_res (lift (peek (to_model r)))) /\
+  (forall r v, g_Ring_PushWithExpand r v = mmap of_model (lift (push_expand (to_model r) v))) /\
+  (forall r, g_Ring_Len r = Ret (len (to_model r))) /\
+  (forall r, g_Ring_Cap r = Ret (cap (to_model r))) /\
+  (forall r c, g_Ring_Recap r c = mmap st_res (lift (recap (to_model r) c))) /\
+  (forall fuel x, g_roundupPowOfTwo fuel x =
+                  lift_fuel (option_map (fun pos => u32 (Z.shiftl Gen.Ringz.roundup_base pos)) (bits_loop fuel x 0))) /\
+  (forall x, 0 <= x < 2 ^ 39 -> g_roundupPowOfTwo 64 x = lift_fuel (roundup x)) /\
+  (forall x, 0 <= x < 2 ^ 63 -> exists v, g_roundupPowOfTwo 64 x = Ret v).
+Proof.
+  exact (conj code_Init (conj code_New (conj code_IsEmpty (conj code_IsFull (conj code_Push (conj code_Pop (conj code_Peek
+        (conj code_PushWithExpand (conj code_Len (conj code_Cap (conj code_Recap (conj code_roundup_fuel
+        (conj code_roundup code_roundup_fuel64))))))))))))).
+Qed.
+Print Assumptions c10_code_is_model.
+
+(* the case interpreter of the correspondence run, executed through the generated functions (Run/C10Code.v), gives the
+   output of `entry` on every case: the differential run of entry 0 against the compiled package is a run of the
+   generated code *)
+Theorem c10_entry_runs_generated_code : forall sub args, entry_code sub args = entry sub args.
+Proof. exact entry_code_is_entry. Qed.
+Print Assumptions c10_entry_runs_generated_code.
